@@ -35,6 +35,7 @@ func ruleInvalidationWiring(e *Engine, r *Reporter) {
 	r.Rule("hit-behind-marker-test", "an iterator cache entry is returned only after its timestamp was compared with the store-wide marker and every per-entity marker (findInCache -> isInvalidAt; tryGetFromCache -> isStoreInvalidated / isCacheEntryInvalidated)", 3)
 	// v1
 	fic := e.Func("pkg/storage/storagewrappers", "findInCache")
+	iiaName := e.currentName("pkg/storage/storagewrappers", "isInvalidAt")
 	n := 0
 	for i, rs := range returnSites(fic) {
 		if len(rs.Results) != 2 {
@@ -45,12 +46,12 @@ func ruleInvalidationWiring(e *Engine, r *Reporter) {
 		}
 		n++
 		g, _ := mustPass(fic, rs.At, cutSpec{edge: func(f Fact) bool {
-			return (f.Kind == "call" || f.Kind == "bool") && !f.Positive && strings.Contains(describe_(f.X), "isInvalidAt(")
+			return (f.Kind == "call" || f.Kind == "bool") && !f.Positive && strings.Contains(describe_(f.X), iiaName+"(")
 		}})
 		lm := false
 		eachInstr(fic, false, func(in ssa.Instruction) {
 			if c, ok := in.(*ssa.Call); ok {
-				if g := staticCallee(c); g != nil && g.Name() == "isInvalidAt" && strings.HasSuffix(describe_(c.Call.Args[1]), ".LastModified") {
+				if g := staticCallee(c); g != nil && g.Name() == iiaName && strings.HasSuffix(describe_(c.Call.Args[1]), ".LastModified") {
 					lm = true
 				}
 			}
